@@ -67,10 +67,13 @@ class ArgumentList:
         self.declared_identifiers = set()
         self.undeclared_identifiers = set()
         if isinstance(code, str):
-            if re.match(r"\S", code) and not re.match(r",\s*$", code):
-                # if theres text and no trailing comma, insure its parsed
-                # as a tuple by adding a trailing comma
-                code += ","
+            if re.search(r"\S", code):
+                # if theres text, insure its parsed as a tuple: in
+                # parenthesis (the list may span lines) with a trailing
+                # comma on a line of its own (the list may end in a comment)
+                if not re.search(r",\s*$", code):
+                    code += "\n,"
+                code = "(" + code + ")"
             expr = pyparser.parse(code, "exec", **exception_kwargs)
         else:
             expr = code
